@@ -137,6 +137,7 @@ func cmdConvert(args []string) {
 	seed := fs.Int64("seed", 1, "seed")
 	mod := fs.Int("mod", 1, "use the layouts whose number is rem modulo mod")
 	rem := fs.Int("rem", 0, "see mod")
+	pick := fs.Int("pick", 1, "of those, use a seeded pseudo random 1/pick")
 	stores := fs.String("stores", "dir,memdir,dirro", "store kinds")
 	crash := fs.Bool("crash", false, "also recover from every crash image of the conversion (directory store; needs the vfs build)")
 	_ = fs.Parse(args)
@@ -172,6 +173,15 @@ func cmdConvert(args []string) {
 		k++
 		if k%*mod != *rem {
 			continue
+		}
+		if *pick > 1 {
+			h := uint64(k)*0x9E3779B97F4A7C15 ^ uint64(*seed)*0xBF58476D1CE4E5B9
+			h ^= h >> 31
+			h *= 0x94D049BB133111EB
+			h ^= h >> 29
+			if h%uint64(*pick) != 0 {
+				continue
+			}
 		}
 		var L cvLayout
 		if err := json.Unmarshal([]byte(sc.Text()), &L); err != nil {
